@@ -1,9 +1,16 @@
 package checks
 
 import (
+	"bytes"
 	"encoding/json"
 	"fmt"
+	"math/big"
+	"sort"
 	"time"
+
+	"github.com/zenon-network/go-zenon/chain/nom"
+	"github.com/zenon-network/go-zenon/common/types"
+	"github.com/zenon-network/go-zenon/vm/embedded/definition"
 
 	"verif/sim/simnode"
 )
@@ -67,4 +74,26 @@ func consensusView(n *simnode.Node, back, ahead int) string {
 	out["producers"] = prod
 	b, _ := json.Marshal(out)
 	return string(b)
+}
+
+func sortBlocks(bs []*nom.AccountBlock) {
+	sort.Slice(bs, func(i, j int) bool {
+		if c := bytes.Compare(bs[i].Address[:], bs[j].Address[:]); c != 0 {
+			return c < 0
+		}
+		if bs[i].Height != bs[j].Height {
+			return bs[i].Height < bs[j].Height
+		}
+		return bytes.Compare(bs[i].Hash[:], bs[j].Hash[:]) < 0
+	})
+}
+
+type chooser interface{ Choose(int) int }
+
+func wlAmount(t chooser) *big.Int {
+	return big.NewInt(int64(1+t.Choose(50)) * 100000000)
+}
+func wlAmountQsr() *big.Int { return big.NewInt(20 * 100000000) }
+func fuseData(beneficiary types.Address) []byte {
+	return definition.ABIPlasma.PackMethodPanic(definition.FuseMethodName, beneficiary)
 }
